@@ -3,6 +3,7 @@ package props
 import (
 	"fmt"
 	"go/types"
+	"sort"
 	"strings"
 
 	"golang.org/x/tools/go/ssa"
@@ -18,7 +19,8 @@ func init() {
 		Explanation: "C17.store: in each of the 8 pointer-receiver Unmarshal*/Scan methods no store into receiver-derived memory (direct, field-wise or through an in-repo callee that writes its receiver) can reach a return whose error operand is not the nil constant (CFG reachability over SSA; a store in the block where the error value merges runs after the merge; a store made by a callee does not count against a return that hands on that callee's own error if the callee passes the rule itself). " +
 			"C17.ro: alias analysis from every parser entry point: no element store, copy or append targets memory that may alias the input (conversions of the type parameter, sub-slices, FindSubmatch results); stdlib callees receiving an alias must be in the read-only summary table; a slice sharing the input's bytes is not stored where it outlives the call; aliases are followed through local cells (variables captured by closures) and into the closures themselves. C17.errinput: the methods of the typed parse errors, which keep the input in their Input field, do not write through an alias of it either (Error() formats a caller's []byte). " +
 			"C17.alias: result types contain no reference into the input (Date, Number, Size, ID have no pointer/slice/string fields; Ver's strings are produced by copying string(...) conversions); no unsafe in the value packages. " +
-			"C17.generic: one generic body per parser, in which no type switch/assertion/reflect inspects a T-typed value, no type assertion or errors.As target is a type built from T (*ParseError[T]: it matches for one instantiation only), and every fmt verb applied to a T-typed value prints string and []byte identically. C17.generic also reports every input-typed value that is converted to an interface and leaves the generic body other than as a %q/%s/%x operand of a constant format (fmt.Sprint, non-constant formats, helpers taking any).",
+			"C17.generic: one generic body per parser, in which no type switch/assertion/reflect inspects a T-typed value, no type assertion or errors.As target is a type built from T (*ParseError[T]: it matches for one instantiation only), and every fmt verb applied to a T-typed value prints string and []byte identically. C17.generic also reports every input-typed value that is converted to an interface and leaves the generic body other than as a %q/%s/%x operand of a constant format (fmt.Sprint, non-constant formats, helpers taking any)." +
+			" Added after the second rule audit: the 'no unsafe' clause of C17.alias covers every package of the module in the call-graph closure of the parser entry points, not a fixed list; a value whose type is instantiated with the input's type parameter must not be printed with %T or %#v/%+v; entry points of other shapes added later (exported functions and methods taking a text and returning an error) join the entry set.",
 		NotDecided:  []string{"error *types* differ by instantiation by design (ParseError[string] vs ParseError[[]byte]); only values and messages are claimed"},
 		Technique:   "store-then-error reachability, input alias/effect analysis and generic-body type rules over go/ssa",
 		Assumptions: []string{"stdlib read-only summaries (regexp.Find*/Match*, bytes.NewReader, json.NewDecoder, strconv.*) do not write their input", "FindSubmatch results alias the subject"},
@@ -84,6 +86,7 @@ func runC17(e *Env) {
 	}
 	e.Flow(func(c *flow.Ctx) { c.RuleInputReadOnly(entries...) })
 	e.S.Floor("C17.ro", 11)
+	ruleC17Arms(e)
 
 	// the typed parse errors keep the input (field Input): formatting the error must not write into it either
 	var errMethods []*ssa.Function
@@ -343,7 +346,9 @@ func ruleGeneric(e *Env, entries []*ssa.Function) {
 								continue
 							}
 							mi, ok := args[ix].(*ssa.MakeInterface)
-							if ok && !mentionsTypeParam(mi.X.Type()) && dependsOnInputParam(mi.X.Type(), 0) && (it.Verb == 'T' || it.Verb == 'v' && strings.ContainsAny(it.Flags, "#+")) {
+							// … or, for a value without an Error()/String() method of its own (the struct itself rather than
+							// the pointer that carries the methods), by any verb: its fields are printed, the input among them
+							if ok && !mentionsTypeParam(mi.X.Type()) && dependsOnInputParam(mi.X.Type(), 0) && (it.Verb == 'T' || it.Verb == 'v' && strings.Contains(it.Flags, "#") || !hasErrorOrString(mi.X.Type())) {
 								// a value of a type instantiated with the input's type (*ParseError[T]): %T and %#v print the
 								// type's name, which names string or []uint8
 								e.S.Bad(rule, site, "verb %"+it.Flags+string(it.Verb), fmt.Sprintf("operand %d of %q has a type built from the input's type parameter (%s) and is printed with %%%s%c, which spells out the instantiation: string and []byte callers get different messages", ix, format, mi.X.Type(), it.Flags, it.Verb), e.posOf(x), "")
@@ -431,6 +436,19 @@ func mentionsTypeParam(t types.Type) bool {
 	return false
 }
 
+// hasErrorOrString: fmt prints a value of type t through its own Error() or String() method.
+func hasErrorOrString(t types.Type) bool {
+	ms := types.NewMethodSet(t)
+	for i := 0; i < ms.Len(); i++ {
+		if n := ms.At(i).Obj().Name(); n == "Error" || n == "String" {
+			if sig, ok := ms.At(i).Type().(*types.Signature); ok && sig.Params().Len() == 0 && sig.Results().Len() == 1 {
+				return true
+			}
+		}
+	}
+	return false
+}
+
 // dependsOnInputParam: t is built from the parser-input type parameter, also as a type argument (*ParseError[T]).
 func dependsOnInputParam(t types.Type, depth int) bool {
 	if depth > 6 {
@@ -486,4 +504,133 @@ func (e *Env) posOf(in ssa.Instruction) string {
 		return e.Pos(in.Parent())
 	}
 	return shortPos(p.Filename, p.Line)
+}
+
+// ruleC17Arms: string and bytes agree also where the text arrives inside an interface value: a decoding method with
+// an interface-typed parameter (Scan(src any)) that takes both a string and a []byte out of it by type assertion
+// hands either to the same functions of the module, converted at most — an arm that first trims, folds or otherwise
+// rewrites its text with something the other arm does not call makes the two kinds of caller disagree. No
+// obligation where a method asserts neither or only one of the two.
+func ruleC17Arms(e *Env) {
+	const rule = "C17.generic"
+	isText := func(t types.Type) string {
+		switch u := t.Underlying().(type) {
+		case *types.Basic:
+			if u.Info()&types.IsString != 0 {
+				return "string"
+			}
+		case *types.Slice:
+			if b, ok := u.Elem().Underlying().(*types.Basic); ok && b.Kind() == types.Uint8 {
+				return "[]byte"
+			}
+		}
+		return ""
+	}
+	var fns []*ssa.Function
+	for _, pkg := range ValuePkgs {
+		for _, m := range unmarshalMethods {
+			if m[0] == pkg {
+				if f := e.P.Method(m[0], m[1], m[2]); f != nil {
+					fns = append(fns, f)
+				}
+			}
+		}
+		for _, f := range lateTextEntries(e, pkg) {
+			fns = append(fns, f)
+		}
+		// methods with an interface-typed parameter are not "text" entries by signature: look at every exported method
+		for _, f := range e.PkgFuncs(pkg) {
+			if f.Signature.Recv() != nil && f.Object() != nil && f.Object().Exported() {
+				fns = append(fns, f)
+			}
+		}
+	}
+	seen := map[*ssa.Function]bool{}
+	for _, f := range fns {
+		if seen[f] || len(f.Blocks) == 0 {
+			continue
+		}
+		seen[f] = true
+		// the consumers of each asserted text: callee names, "ext:" for functions outside the module
+		arms := map[string]map[string]bool{}
+		for _, b := range f.Blocks {
+			for _, in := range b.Instrs {
+				ta, ok := in.(*ssa.TypeAssert)
+				if !ok || isText(ta.AssertedType) == "" {
+					continue
+				}
+				if _, isParam := flow.Strip(ta.X).(*ssa.Parameter); !isParam {
+					continue
+				}
+				kind := isText(ta.AssertedType)
+				if arms[kind] == nil {
+					arms[kind] = map[string]bool{}
+				}
+				var val ssa.Value = ta
+				if ta.CommaOk {
+					val = nil
+					for _, r := range *ta.Referrers() {
+						if ex, ok := r.(*ssa.Extract); ok && ex.Index == 0 {
+							val = ex
+						}
+					}
+				}
+				if val == nil {
+					continue
+				}
+				var walk func(v ssa.Value, depth int)
+				walk = func(v ssa.Value, depth int) {
+					if depth > 4 || v.Referrers() == nil {
+						return
+					}
+					for _, r := range *v.Referrers() {
+						switch x := r.(type) {
+						case *ssa.Convert:
+							walk(x, depth+1)
+						case *ssa.ChangeType:
+							walk(x, depth+1)
+						case *ssa.MakeInterface:
+							walk(x, depth+1)
+						case ssa.CallInstruction:
+							cc := x.Common()
+							if bi, isB := cc.Value.(*ssa.Builtin); isB && (bi.Name() == "len" || bi.Name() == "cap") {
+								continue
+							}
+							if g := e.C.StaticCallee(cc); g != nil {
+								if flow.InRepo(g) {
+									arms[kind][flow.FnName(flow.Origin(g))] = true
+								} else if !strings.HasPrefix(g.String(), "fmt.") { // the error message of the fall-through arm
+									arms[kind]["ext:"+g.String()] = true
+								}
+							} else {
+								arms[kind]["dyn:"+cc.Value.String()] = true
+							}
+						}
+					}
+				}
+				walk(val, 0)
+			}
+		}
+		if len(arms["string"]) == 0 || len(arms["[]byte"]) == 0 {
+			continue
+		}
+		site := flow.FnName(f)
+		var diff []string
+		for k := range arms["string"] {
+			if !arms["[]byte"][k] {
+				diff = append(diff, "string arm only: "+k)
+			}
+		}
+		for k := range arms["[]byte"] {
+			if !arms["string"][k] {
+				diff = append(diff, "[]byte arm only: "+k)
+			}
+		}
+		sort.Strings(diff)
+		if len(diff) > 0 {
+			e.S.Bad(rule, site, "arms", "the string and the []byte taken out of the interface parameter are not handed to the same functions ("+strings.Join(diff, "; ")+"): the same text can be accepted from one kind of caller and refused from the other", e.Pos(f), "")
+		} else {
+			e.S.Ok(rule, site, "arms", "the string and the []byte arm hand their text to the same functions", e.Pos(f))
+		}
+	}
 }
